@@ -1,6 +1,7 @@
 package main
 
 import (
+	"sync"
 	"fmt"
 	"sort"
 	"strings"
@@ -48,7 +49,14 @@ func runConform(p *Prog, only string, among []string) []conformResult {
 		names = append(names, name)
 	}
 	sort.Strings(names)
+	// phase 1 (sequential: executors share the program's type tables): symbolic return paths
+	type job struct {
+		fi  int
+		o   *Obligation
+		all []*Obligation
+	}
 	var out []conformResult
+	var jobs []job
 	for _, name := range names {
 		fn := p.fns[name]
 		fs := p.specs.Funcs[name]
@@ -60,42 +68,62 @@ func runConform(p *Prog, only string, among []string) []conformResult {
 			out = append(out, cr)
 			continue
 		}
+		out = append(out, cr)
 		for _, o := range res.Obls {
-			if o.Kind != "conform" {
-				continue
+			if o.Kind == "conform" {
+				out[len(out)-1].Paths++
+				jobs = append(jobs, job{len(out) - 1, o, res.Obls})
 			}
-			cr.Paths++
+		}
+	}
+	// phase 2 (parallel): replay each path on the real code
+	var mu sync.Mutex
+	var wg sync.WaitGroup
+	sem := make(chan struct{}, 5)
+	for _, jb := range jobs {
+		wg.Add(1)
+		go func(jb job) {
+			defer wg.Done()
+			sem <- struct{}{}
+			defer func() { <-sem }()
+			o := jb.o
+			fn := p.fns[out[jb.fi].Func]
 			r := attemptReplay(p, "", o)
+			verdict, msg := "skipped", fmt.Sprintf("path %d: %s", o.PathID, r.Reason)
 			switch {
 			case !r.Attempted:
-				cr.Skipped = append(cr.Skipped, fmt.Sprintf("path %d: %s", o.PathID, r.Reason))
 			case r.Confirmed:
-				cr.Replayed++
-				cr.Consistent++
+				verdict = "consistent"
 			case strings.Contains(r.Reason, "does not follow"):
-				cr.Replayed++
 				// the model was taken from this path's condition, but where the symbolic world is
 				// more permissive than reality (uninterpreted configuration functions, opaque spec
 				// functions) the real run may legitimately take another path: it must be admitted by
 				// SOME return path
-				other := false
-				for _, o2 := range res.Obls {
+				verdict = "inconsistent"
+				msg = fmt.Sprintf("path %d: real post-state %v is not admitted by the symbolic path (inputs %s)", o.PathID, r.Cells, modelInputs(o))
+				for _, o2 := range jb.all {
 					if o2.Kind == "conform" && o2 != o && consistentWithPath(p, o2, namedOfRecv(fn), &r) == "sat" {
-						other = true
+						verdict = "consistent"
 						break
 					}
 				}
-				if other {
-					cr.Consistent++
-					continue
-				}
-				cr.Inconsistent = append(cr.Inconsistent, fmt.Sprintf("path %d: real post-state %v is not admitted by the symbolic path (inputs %s)", o.PathID, r.Cells, modelInputs(o)))
-			default:
-				cr.Skipped = append(cr.Skipped, fmt.Sprintf("path %d: %s", o.PathID, r.Reason))
 			}
-		}
-		out = append(out, cr)
+			mu.Lock()
+			cr := &out[jb.fi]
+			switch verdict {
+			case "consistent":
+				cr.Replayed++
+				cr.Consistent++
+			case "inconsistent":
+				cr.Replayed++
+				cr.Inconsistent = append(cr.Inconsistent, msg)
+			default:
+				cr.Skipped = append(cr.Skipped, msg)
+			}
+			mu.Unlock()
+		}(jb)
 	}
+	wg.Wait()
 	return out
 }
 
